@@ -6,7 +6,7 @@ import random
 from ..core import Family, cps, hexb
 from ..sim import srv as sim
 from .pumpfam import PumpFamily, gen_pump_case
-from .srvfam import BODIES, METAS, STATUSES, ConnFamily
+from .srvfam import BODIES, METAS, STATUSES, ConnFamily, racy
 
 ID = "C01"
 READY = True
@@ -32,7 +32,88 @@ class Events(ConnFamily):
     name = "events"
 
     def oracle(self, case, obs):
-        return self.oracle_c01(case, obs) or self.oracle_once(case, obs)
+        return _named(case, obs, self.oracle_c01(case, obs) or self.oracle_once(case, obs))
+
+
+# spellings of the Titan `size` parameter: what clients, libraries and people write for a number.  Python's int() takes a sign,
+# white space around, single underscores between digits; everything else - floats, infinities, exponents, other bases, empty -
+# is refused.  A parser made "lenient" meets conversions that fail in OTHER ways than int() does (float("inf") converts, int() of
+# it raises OverflowError, int(float("nan")) a ValueError, 1e999 is inf, Decimal/Fraction raise their own classes): whatever the
+# spelling, the line is a full request line and gets its one response.  ASCII only (the model's `pyInt` is the ASCII fragment).
+SIZE_SPELLINGS = ["inf", "-inf", "+inf", "Infinity", "-Infinity", "INF", "iNf", "infinity", "nan", "NaN", "-nan", "+NAN", "1e999", "-1e999", "1E400", "9e308", "2e308",
+                  "1e309", "1e3", "1e0", "1E2", "1e+2", "1e-2", "1e-999", "0e0", "1024.0", "3.0", "3.", "0.0", "-0.0", "1.5", ".5", "5.", "3.0e0", "1_0.0", "1e1_0",
+                  "0x10", "0X1f", "0b11", "0o7", "010", "00", "1_000", "1__0", "_1", "1_", "+3", "-0", "+0", "--3", "+-3", "- 3", "", " ", "3 ", " 3", "3L", "3j", "1e", "e3",
+                  "1/2", "3/1", "1,000", "1 000", "3;", "3%", "%33", "0.5e1", "5e-1", "1e400000", "9" * 25, "9" * 400, "-" + "9" * 30, "1" + "0" * 310, "1" + "0" * 310 + ".0",
+                  "0." + "0" * 330 + "1", "True", "None", "3\t", "\t3", "3\x0b", "3\x00", "x", "size", "=3", "3=3", "inf=3", "1e999;mime=text/plain", "inf;token=t",
+                  "3;size=inf", "inf;size=3", "1e999;size=0", "0;size=1e999", "nan;size=nan"]
+
+
+class Sizes(ConnFamily):
+    """Titan request lines whose `size` parameter is spelled in every way a number gets spelled (see SIZE_SPELLINGS), sent to a server
+    WITH an upload handler (most of the time), in one read or cut anywhere, with the content (or less, or more) behind the line: the line
+    is complete, so exactly one response - a refusal or, for a size Python's int() takes, what the upload handler says - and the close.
+    Same implementation runner, model line and oracle as family `events`."""
+
+    name = "sizes"
+    quick_n = 480
+    thorough_n = 8000
+
+    def gen(self, rng: random.Random, n: int):
+        from .srvfam import MW_LINES, cut, gen_resp
+
+        def line(sp):
+            return b"titan://h/f;size=" + sp.encode("latin1")
+
+        fixed = [{"mw": False, "up": True, "handler": ["a"], "evs": [["d", (line(sp) + b"\r\nabc").hex()]]} for sp in SIZE_SPELLINGS]
+        k = 0
+        for c in self.share(fixed):
+            k += 1
+            yield c
+        while k < n:
+            k += 1
+            sp = rng.choice(SIZE_SPELLINGS)
+            r = rng.random()
+            ln = line(sp) if r < 0.7 else b"titan://h/d/e.txt;mime=text/plain;size=" + sp.encode("latin1") if r < 0.8 else b"titan://h/f;token=t;size=" + sp.encode("latin1") + b";mime=a/b" \
+                if r < 0.9 else b"titan://h/f; size = " + sp.encode("latin1")
+            tail = rng.choice([b"", b"abc", b"ab", b"abcdef", bytes(rng.randrange(256) for _ in range(rng.randint(0, 12)))])
+            data = cut(rng, ln + b"\r\n" + tail, 2)
+            mw = rng.random() < 0.25
+            rest = []
+            if mw:
+                rest.append(rng.choice([["ma"], ["ma"], ["ma"], ["mr"], ["md", rng.choice(MW_LINES)]]))
+            q = rng.random()
+            if q < 0.55:
+                rest.append(["ua", gen_resp(rng)])
+            elif q < 0.65:
+                rest.append(["ur"])
+            elif q < 0.8:
+                rest.append(rng.choice([["t"], ["tick", 100], ["tick", 241], ["l"]]))
+            if rng.random() < 0.15:
+                rest.insert(rng.randint(0, len(rest)), rng.choice([["t"], ["l"], ["d", "6162"], ["d", "0d0a"]]))
+            c = {"mw": mw, "up": rng.random() < 0.88, "handler": rng.choice([["a"], ["s", gen_resp(rng)], ["r"]]), "evs": [["d", x.hex()] for x in data] + rest}
+            yield racy(rng, c) if rng.random() < 0.15 else c
+
+    def oracle(self, case, obs):
+        return _named(case, obs, self.oracle_c01(case, obs) or self.oracle_once(case, obs))
+
+    def key(self, case, obs):
+        ok, what = sim.wellformed_trace(obs["acts"])
+        ln = _first_line(case)
+        sp = ln.rsplit(b"size", 1)[-1].lstrip(b" =")[:6].decode("latin1") if b"size" in ln else "-"
+        return f"{what}|{sp}|up{int(case['up'])}|u{obs['u']}|{'lost' if obs['lost'] else ''}|{'await' if obs['awaiting'] else ''}"
+
+
+def _named(case, obs, v):
+    """a verdict with the request line it is about (and the exception that left a protocol callback, if one did)"""
+    if v is None:
+        return None
+    return (v[0], v[1] + f" (request line {_first_line(case)!r}, upload handler {'configured' if case['up'] else 'absent'}"
+                         + (f"; an exception reached the event loop: {obs['exc'][0]}" if obs["exc"] else "") + ")")
+
+
+def _first_line(case) -> bytes:
+    data = b"".join(bytes.fromhex(e[1]) for e in case["evs"] if e[0] == "d")
+    return data.split(b"\r\n", 1)[0][:80]
 
 
 class Render(Family):
@@ -401,6 +482,86 @@ RAISES = {
 }
 
 
+
+# a response OBJECT whose fields are not what the annotations say (status: int, meta: str, body: str | bytes | None): handlers build
+# the meta from a list of MIME parameters and forget the join, pass the header dict, a bytearray from a buffer, an Exception as the
+# message, an enum member as status ...  The encoder's contract is "never raises, always a well-formed header": it must hold for
+# values that cannot be hashed, compared, cached, sliced or concatenated like a str - every one of them has an ordinary str().
+# name -> () -> (status, meta, body), built afresh per call
+@__import__("dataclasses").dataclass
+class _Record:      # eq=True without frozen: instances are unhashable
+    mime: str = "text/gemini"
+
+
+class _ListSub(list):
+    pass
+
+
+class _OddStr(str):     # a str in every respect except that it cannot be a dict key
+    __hash__ = None
+
+
+def _enum20():
+    return __import__("nauyaca.protocol.status", fromlist=["StatusCode"]).StatusCode.SUCCESS
+
+
+ODD = {
+    "meta=list": lambda: (20, ["text/gemini", "charset=utf-8"], "ok\n"),
+    "meta=dict": lambda: (20, {"mime": "text/gemini"}, "ok\n"),
+    "meta=set": lambda: (20, {"text/gemini"}, "ok\n"),
+    "meta=bytearray": lambda: (20, bytearray(b"text/gemini"), "ok\n"),
+    "meta=bytes": lambda: (20, b"text/gemini", "ok\n"),
+    "meta=memoryview": lambda: (20, memoryview(b"text/gemini"), "ok\n"),
+    "meta=tuple": lambda: (20, ("text/gemini", "lang=en"), "ok\n"),
+    "meta=tuple-of-list": lambda: (20, ("text/gemini", ["lang=en"]), "ok\n"),
+    "meta=nested": lambda: (20, [["a"], {"b": [1]}], "ok\n"),
+    "meta=list-subclass": lambda: (20, _ListSub(["text/gemini"]), "ok\n"),
+    "meta=record": lambda: (20, _Record(), "ok\n"),
+    "meta=unhashable-str": lambda: (20, _OddStr("text/gemini"), "ok\n"),
+    "meta=deque": lambda: (20, __import__("collections").deque(["text/gemini"]), "ok\n"),
+    "meta=crlf-list": lambda: (20, ["a\r\nb", "20 x\r\n"], "ok\n"),
+    "meta=long-list": lambda: (20, ["x" * 600, "\u20ac" * 400], "ok\n"),
+    "meta=exception": lambda: (51, KeyError("no\r\nsuch"), None),
+    "meta=none": lambda: (20, None, "ok\n"),
+    "meta=int": lambda: (51, 404, None),
+    "meta=float": lambda: (20, 1.5, "ok\n"),
+    "meta=nan": lambda: (44, float("nan"), None),
+    "meta=decimal": lambda: (44, __import__("decimal").Decimal("2.5"), None),
+    "meta=true": lambda: (20, True, "ok\n"),
+    "meta=enum": lambda: (20, _enum20(), "ok\n"),
+    "meta=object": lambda: (20, object(), "ok\n"),
+    "meta=frozenset": lambda: (20, frozenset(["text/gemini"]), "ok\n"),
+    "meta=range": lambda: (20, range(3), "ok\n"),
+    "meta=list,51": lambda: (51, ["Not", "found"], None),
+    "meta=dict,30": lambda: (30, {"to": "gemini://h/y"}, None),
+    "meta=list,10": lambda: (10, ["Name?"], None),
+    "meta=bytearray,60": lambda: (60, bytearray(b"cert"), "not for the wire"),
+    "status=enum": lambda: (_enum20(), "text/gemini", "ok\n"),
+    "status=enum,meta=list": lambda: (_enum20(), ["text/gemini"], "ok\n"),
+    "status=float": lambda: (20.0, "text/gemini", "ok\n"),
+    "status=str": lambda: ("20", "text/gemini", "ok\n"),
+    "status=list": lambda: ([20], ["text/gemini"], "ok\n"),
+    "status=none,meta=dict": lambda: (None, {"a": 1}, "ok\n"),
+    "status=true": lambda: (True, "text/gemini", "ok\n"),
+    "status=nan": lambda: (float("nan"), "x", None),
+    "status=huge": lambda: (10 ** 400, ["x"], None),
+    "body=list": lambda: (20, "text/gemini", ["# a", "b"]),
+    "body=dict": lambda: (20, "text/gemini", {"a": 1}),
+    "body=int": lambda: (20, "text/gemini", 7),
+    "body=zero": lambda: (20, "text/gemini", 0),
+    "body=list,51": lambda: (51, "Not found", ["leak"]),
+    "body=bytearray,meta=list": lambda: (20, ["application/octet-stream"], bytearray(b"\x00\xff")),
+    "body=exception": lambda: (20, "text/plain", ValueError("x\udcffy")),
+}
+
+
+def _odd_repr(name) -> str:
+    try:
+        return ", ".join(repr(x)[:50] for x in ODD[name]())
+    except Exception as e:  # noqa: BLE001
+        return f"? {type(e).__name__}"
+
+
 class Outcomes(Family):
     """whatever a request or upload handler DOES - hands back a response, hands back something that is no response at all, raises
     an exception of whatever class - and WHEN it does it - at once (synchronous handler), after some turns of the event loop, after
@@ -410,7 +571,7 @@ class Outcomes(Family):
     model, like a handler that raises)."""
 
     name = "outcomes"
-    quick_n = 700
+    quick_n = 1200
     thorough_n = 15000
 
     GEMINI = [b"gemini://h/x\r\n", b"gemini://h/a/b?q=1\r\n", b"gemini://h/\r\nEXTRA"]
@@ -419,7 +580,7 @@ class Outcomes(Family):
     def gen(self, rng: random.Random, n: int):
         from .srvfam import cut, gen_resp
 
-        outs = [["junk", k] for k in JUNK] + [["raise", k] for k in RAISES]
+        outs = [["junk", k] for k in JUNK] + [["raise", k] for k in RAISES] + [["odd", k] for k in ODD]
         fixed = []
         for kind in ("sync", "async", "upload"):
             for out in outs:
@@ -472,6 +633,11 @@ class Outcomes(Family):
                 return sim.mkresp(out[1])
             if out[0] == "raise":
                 raise RAISES[out[1]]()
+            if out[0] == "odd":
+                from nauyaca.protocol.response import GeminiResponse
+
+                status, meta, body = ODD[out[1]]()
+                return GeminiResponse(status=status, meta=meta, body=body, url="gemini://h/x" if len(out[1]) % 2 else None)
             return JUNK[out[1]]()
 
         async def later():
@@ -506,7 +672,8 @@ class Outcomes(Family):
 
     def oracle(self, case, obs):
         acts = obs["acts"]
-        what = f"{case['kind']} handler that " + {"resp": "returns a response", "junk": f"returns {case['out'][1]!r} (no response object)", "raise": f"raises {case['out'][1]!r}"}[case["out"][0]] \
+        what = f"{case['kind']} handler that " + {"resp": "returns a response", "junk": f"returns {case['out'][1]!r} (no response object)", "raise": f"raises {case['out'][1]!r}",
+                                                     "odd": f"returns GeminiResponse(status, meta, body) with {case['out'][1]} [{_odd_repr(case['out'][1])}]"}[case["out"][0]] \
             + ("" if case["kind"] == "sync" else f" after {case['wait'][1]} turns of the event loop" if case["wait"][0] == "y" else f" after {case['wait'][1] / 8} s")
         esc = f"; an exception reached the event loop: {obs['exc'][0]}" if obs["exc"] else ""
         if obs["started"] > 1 or obs["finished"] > 1:
@@ -652,4 +819,4 @@ class LiveTail(Family):
         return self._live.key(case, obs)
 
 
-FAMILIES = [Events(), Render(), Pump(), Content(), Flow(), Sys(), Outcomes(), Pair(), LiveTail()]
+FAMILIES = [Events(), Sizes(), Render(), Pump(), Content(), Flow(), Sys(), Outcomes(), Pair(), LiveTail()]
